@@ -394,6 +394,15 @@ func c09Listen(c *Ctx) {
 		"after a delivered message the loop continues", "receive loop does not continue")
 	c.R.Floor("R-C09-5", 3)
 
+	checkListenDelivery(c, "R-C09-1", l, ps)
+}
+
+// checkListenDelivery: the listener callback is invoked only with
+// message{Message: receiveRetry#0, Host: receiveRetry#1.WithZone("")}.
+func checkListenDelivery(c *Ctx, rule string, l *ssa.Function, ps []*an.Path) {
+	fn := c.fname(l)
+	n := 0
+	seen := false
 	// The callback is invoked only with values returned by receiveRetry, host zone cleared.
 	for _, p := range ps {
 		calls := callsOnPath(p, func(cc *ssa.CallCommon) bool {
@@ -423,10 +432,16 @@ func c09Listen(c *Ctx) {
 					}
 				}
 			}
-			c.R.Check(okMsg && okHost, "R-C09-1", fn+":callback-arg", fn, c.pos(ci.Pos()),
+			n++
+			if seen && okMsg && okHost {
+				continue
+			}
+			seen = true
+			c.R.Check(okMsg && okHost, rule, fn+":callback-arg", fn, c.pos(ci.Pos()),
 				"callback argument "+arg.String(),
 				"message{Message: receiveRetry#0, Host: receiveRetry#1.WithZone(\"\")}",
 				"the callback can be invoked with something other than a validated message")
 		}
 	}
+	c.R.Check(n >= 1, rule, fn+":callback-sites", fn, c.pos(l.Pos()), fmt.Sprintf("%d callback invocation path(s)", n), ">= 1", "anchor-missing")
 }
